@@ -524,6 +524,8 @@ pub struct Profile {
     /// bias towards non-transitive reachability: a long minimal shunting at the same station but
     /// free and instant dead-heads between different stations (a -> x -> b feasible, a -> b not)
     pub non_transitive: bool,
+    /// see `fleet_heavy()`
+    pub fleet_heavy: bool,
 }
 
 impl Profile {
@@ -540,6 +542,7 @@ impl Profile {
             max_demand_factor: 2,
             maint_heavy: false,
             non_transitive: false,
+            fleet_heavy: false,
         }
     }
     pub fn medium() -> Profile {
@@ -555,6 +558,25 @@ impl Profile {
             max_demand_factor: 4,
             maint_heavy: false,
             non_transitive: false,
+            fleet_heavy: false,
+        }
+    }
+    /// larger single-type fleets with several maintained vehicles, depots at different locations
+    /// and asymmetric dead-head matrices: rotation cycles of three and more vehicles
+    pub fn fleet_heavy() -> Profile {
+        Profile {
+            max_types: 1,
+            max_locs: 3,
+            min_departures: 6,
+            max_departures: 12,
+            max_route_segs: 1,
+            maint_percent: 100,
+            max_maint: 2,
+            span_steps: 30,
+            max_demand_factor: 1,
+            maint_heavy: true,
+            non_transitive: false,
+            fleet_heavy: true,
         }
     }
     pub fn maint_heavy() -> Profile {
@@ -570,6 +592,7 @@ impl Profile {
             max_demand_factor: 2,
             maint_heavy: true,
             non_transitive: false,
+            fleet_heavy: false,
         }
     }
 }
@@ -670,7 +693,9 @@ pub fn gen_instance(rng: &mut Rng, p: &Profile) -> Inst {
         }
     }
     // depots
-    let depots = if rng.chance(65) {
+    let depots = if p.fleet_heavy {
+        None
+    } else if rng.chance(65) {
         let nd = rng.range(1, 3) as usize;
         let mut ds = vec![];
         for _ in 0..nd {
@@ -703,7 +728,7 @@ pub fn gen_instance(rng: &mut Rng, p: &Profile) -> Inst {
     if rng.chance(30) {
         rng.shuffle(&mut dh_idx);
     }
-    let style = rng.below(4); // 0 metric-ish, 1 random grid, 2 zeros, 3 with extreme entries
+    let style = if p.fleet_heavy { 1 } else { rng.below(4) }; // 0 metric-ish, 1 random grid, 2 zeros, 3 with extreme entries
     let mut dh_dur = vec![vec![0u64; nlocs]; nlocs];
     let mut dh_dist = vec![vec![0u64; nlocs]; nlocs];
     for a in 0..nlocs {
@@ -743,7 +768,13 @@ pub fn gen_instance(rng: &mut Rng, p: &Profile) -> Inst {
     let max_dist = if maint.is_empty() && rng.chance(50) {
         0
     } else if p.maint_heavy {
-        *rng.pick(&[50_000u64, 1_000_000])
+        // a fraction of the fleet's service distance, so that several tracks are allotted and
+        // several maintained vehicles (= several rotation cycles) are needed
+        let total: u64 = departures
+            .iter()
+            .map(|d| d.segs.iter().map(|g| routes[d.route].segs[g.rseg].distance).sum::<u64>())
+            .sum();
+        if rng.chance(75) { (total / rng.range(2, 4)).max(500) } else { *rng.pick(&[50_000u64, 1_000_000]) }
     } else {
         *rng.pick(&[500u64, 1500, 3000, 5000, 50_000, 1_000_000])
     };
